@@ -19,7 +19,7 @@ PROPS = {
         assumptions=['heap, wall-clock and stack limits are observed by the worker watchdog, not proved']),
     'C02': dict(facts=['Topo', 'Calls', 'Translated'], more=['Oracles'], keys=['C02'], tkeys=['T:pre', 'T:phase1', 'T:phase5', 'T:post', 'T:output', 'T:break', 'T:phase4-noop', 'T:pipeline'], suites=[('e2e', 2500, 60000), ('c04', 500, 10000), ('e2e-big', 8, 100), ('e2e-dec', 400, 8000)], partial=[]),
     'C03': dict(facts=['Calls', 'Numbers', 'Topo', 'Translated'], more=['C01Chain'], keys=['C03'], tkeys=['T:phase2-longestpath', 'T:layers', 'T:assignY', 'T:phase4-valign', 'T:phase4-packright', 'T:post', 'T:output', 'T:break', 'T:phase4-sinkcoloring', 'K:layersWF', 'T:phase2-ns', 'T:phase4-ns', 'T:phase4-bk'], suites=[('c03', 2500, 60000), ('e2e', 500, 10000), ('e2e-big', 8, 100)], partial=[]),
-    'C04': dict(facts=['Calls', 'Numbers', 'Translated'], more=['Oracles'], keys=['C04', 'C09side'], tkeys=['T:phase4-valign', 'T:phase4-packright', 'T:output', 'T:phase4-sinkcoloring', 'K:layersWF', 'K:sc-blockwidth', 'K:layered', 'T:phase4-ns'], suites=[('c04', 2500, 60000), ('e2e', 500, 10000), ('e2e-big', 8, 100)], partial=[]),
+    'C04': dict(facts=['Calls', 'Numbers', 'Translated'], more=['Oracles', 'C01Chain'], keys=['C04', 'C09side'], tkeys=['T:phase4-valign', 'T:phase4-packright', 'T:output', 'T:phase4-sinkcoloring', 'K:layersWF', 'K:sc-blockwidth', 'K:layered', 'T:phase4-ns'], suites=[('c04', 2500, 60000), ('e2e', 500, 10000), ('e2e-big', 8, 100)], partial=[]),
     'C05': dict(facts=['Calls', 'Numbers', 'Translated'], keys=['C05'], tkeys=['T:phase5', 'T:post', 'T:output', 'T:break'], suites=[('c05', 2500, 60000), ('e2e-splines', 60, 3000), ('e2e', 500, 10000), ('e2e-big', 8, 100), ('e2e-huge', 8, 100), ('e2e-wide', 2, 12)], partial=[]),
     'C06': dict(facts=['Calls', 'Numbers', 'Translated'], keys=['C06'], tkeys=['T:phase5', 'T:output', 'T:break'], suites=[('c06', 2500, 60000), ('e2e', 500, 10000), ('e2e-big', 8, 100)], partial=[]),
     'C07': dict(facts=['Maps', 'Shared', 'Calls'], keys=['C07rep', 'C07input', 'C07fresh'], tkeys=['T:phase2-ns', 'T:phase4-sinkcoloring'], suites=[('e2e', 2500, 60000), ('e2e-big', 8, 100), ('e2e-dec', 400, 8000)],
@@ -30,7 +30,7 @@ PROPS = {
                 suites=[('union', 1500, 40000), ('union-dec', 600, 15000), ('union-many', 8, 100), ('union-big', 8, 100), ('e2e', 800, 10000)], partial=[]),
     'C10': dict(facts=['Calls', 'Translated'], keys=['C10'], tkeys=['K:ns-certificate', 'K:ns-contiguity-hyp', 'T:layers', 'T:phase2-ns', 'T:ns-pivots'], suites=[('c10', 4000, 80000), ('c10-big', 12, 200), ('c10-mid', 24, 600)], partial=[]),
     'C11': dict(facts=['Calls'], keys=['C11'], tkeys=['T:phase2-longestpath', 'T:layers'], suites=[('c11', 2000, 50000), ('c11-deep', 8, 120)], partial=[]),
-    'C12': dict(facts=['Calls', 'Translated'], keys=['C12'], tkeys=['T:phase3-wmedian', 'T:wmedian-logged', 'T:crossings', 'K:ordered', 'T:break', 'T:phase4-sinkcoloring', 'T:phase4-valign', 'T:phase4-packright', 'T:phase5', 'T:output', 'T:phase4-ns'], suites=[('c12', 2000, 50000), ('c12-deep', 6, 60), ('e2e-big', 8, 100), ('c12-wide', 4, 40)], partial=[]),
+    'C12': dict(facts=['Calls', 'Translated'], more=['C01Chain'], keys=['C12'], tkeys=['T:phase3-wmedian', 'T:wmedian-logged', 'T:crossings', 'K:ordered', 'T:break', 'T:phase4-sinkcoloring', 'T:phase4-valign', 'T:phase4-packright', 'T:phase5', 'T:output', 'T:phase4-ns'], suites=[('c12', 2000, 50000), ('c12-deep', 6, 60), ('e2e-big', 8, 100), ('c12-wide', 4, 40)], partial=[]),
     'C13': dict(facts=['Calls', 'Translated'], keys=['C13'],
                 tkeys=['T:crossings', 'K:ordered', 'T:break', 'T:phase3-wmedian', 'T:wmedian-logged', 'T:phase4-sinkcoloring',
                        'T:phase4-valign', 'T:phase4-packright', 'T:phase4-ns', 'T:phase5', 'T:output'],
